@@ -258,6 +258,20 @@ def c_demux(n=3):
     h.functions = ["litex.soc.interconnect.stream.Demultiplexer.__init__"]
     return h
 
+def c_cdc_same(cd, buffered):
+    """ClockDomainCrossing with cd_from == cd_to (no crossing) in a domain that is not called 'sys': an ordinary stream element of THAT domain - every register
+    it contains is clocked by cd (otherwise, seen from the stream's own clock, a stalled token is not held and tokens are lost or duplicated).  The behaviour
+    of the same construction is proved in the sys domain (C05: ClockDomainCrossing(sys->sys[,buffered])); here the structural clause that makes it carry over."""
+    from vf.fhdl2smt import TS
+    d = mk(stream.ClockDomainCrossing, [("data", 4)], cd, cd, 8, buffered)
+    ts = TS(d, inputs=ep_inputs(d.sink, d.source))
+    other = sorted(k for k, nx in ts.next.items() if k != cd and nx); own = len(ts.next.get(cd, {}))
+    out = [res("ens.hold.clocked-only-by-its-own-domain", "ensures", PROVED if not other else VIOLATED, 0, "executed (elaboration)", replayed=True,
+               witness=dict(construction=f"ClockDomainCrossing(layout, cd_from={cd!r}, cd_to={cd!r}, buffered={buffered})", registers_clocked_by=other),
+               info="" if not other else f"registers in clock domain(s) {other}: seen from the stream's clock {cd!r} a stalled token is not held"),
+           res("ens.same-domain-structure", "ensures", PROVED if (own > 0) == bool(buffered) and not other else VIOLATED, 0, "executed (elaboration)", info=f"{own} registers in {cd!r}; buffered={buffered}")]
+    return dict(results=out, functions=["litex.soc.interconnect.stream.ClockDomainCrossing.__init__ (cd_from == cd_to)"], samples=[dict(construction=f"ClockDomainCrossing({cd}->{cd},buffered={buffered})")])
+
 def c_cast(lf=(("a", 3), ("b", 5)), lt=(("x", 6), ("y", 2)), reverse_from=False, reverse_to=False):
     lf, lt = [tuple(x) for x in lf], [tuple(x) for x in lt]
     d = mk(stream.Cast, lf, lt, reverse_from, reverse_to)
